@@ -1,6 +1,8 @@
 package config
 
 import (
+	"bytes"
+	"encoding/binary"
 	"errors"
 	"fmt"
 	"io"
@@ -127,7 +129,15 @@ func (c *Config) WriteTo(w io.Writer) (total int64, err error) {
 		return
 	}
 
-	// write rid
+	// write rid, length-prefixed: everything in here is written into one hash item, so a part of variable
+	// length has to say where it ends
+	if c.RID == nil {
+		return total, io.ErrUnexpectedEOF
+	}
+	if err = binary.Write(w, binary.BigEndian, uint64(len(c.RID))); err != nil {
+		return
+	}
+	total += 8
 	n, err = c.RID.WriteTo(w)
 	total += n
 	if err != nil {
@@ -183,13 +193,23 @@ func (p *Public) WriteTo(w io.Writer) (total int64, err error) {
 		return
 	}
 
-	n64, err := p.Paillier.WriteTo(w)
-	total += n64
+	// write Paillier, length-prefixed: the modulus is written with as many bytes as it needs, and without its
+	// length two different records could be written as the same bytes
+	var modulus bytes.Buffer
+	if _, err = p.Paillier.WriteTo(&modulus); err != nil {
+		return
+	}
+	if err = binary.Write(w, binary.BigEndian, uint64(modulus.Len())); err != nil {
+		return
+	}
+	total += 8
+	n, err = w.Write(modulus.Bytes())
+	total += int64(n)
 	if err != nil {
 		return
 	}
 
-	n64, err = p.Pedersen.WriteTo(w)
+	n64, err := p.Pedersen.WriteTo(w)
 	total += n64
 	if err != nil {
 		return
